@@ -239,7 +239,7 @@ pub fn run(ctx: &mut Ctx) {
     for (n, ok) in r9::selftest(ctx.shard == 0) {
         ctx.selftest(&n, ok);
     }
-    ctx.require(&["annex_kat", "honest_keys_equal", "tampered_keys_differ", "responder_rejects_offcurve_RA", "initiator_rejects_offcurve_RB", "tamper=RaOther", "tamper=RbOther", "tamper=RaBitflipOnCurve", "tamper=RbNeg", "klen=1", "klen=128", "parties_have_public_master_key_only", "sparse_ephemeral_scalars", "kdf_direct", "ke=H1(id)_doubling_in_Q", "sk_all_zero_retry_path", "crafted_valid_R_A"]);
+    ctx.require(&["annex_kat", "honest_keys_equal", "tampered_keys_differ", "responder_rejects_offcurve_RA", "initiator_rejects_offcurve_RB", "tamper=RaOther", "tamper=RbOther", "tamper=RaBitflipOnCurve", "tamper=RbNeg", "klen=1", "klen=128", "parties_have_public_master_key_only", "sparse_ephemeral_scalars", "kdf_direct", "ke=H1(id)_doubling_in_Q", "sk_all_zero_retry_path", "crafted_valid_R_A", "id_beyond_2^16_bits"]);
     let pr = r9::params();
     let mut paux = ctx.prng("aux");
     if ctx.shard == 0 {
@@ -312,10 +312,15 @@ pub fn run(ctx: &mut Ctx) {
         }
         let mut p = Prng::new(sub, "h");
         let ke = scalar_for(&mut p, i % 20);
-        let la = p.range(0, 24);
+        // identities beyond the 2^16-bit / 2^16-byte thresholds now and then
+        let long = [8186usize, 8192, 20000, 70001][((i / 16) % 4) as usize];
+        let la = if i % 16 == 11 { long } else { p.range(0, 24) };
         let ida = p.bytes(la);
-        let lb = p.range(1, 24);
+        let lb = if i % 16 == 3 { long } else { p.range(1, 24) };
         let idb = p.bytes(lb);
+        if la >= 8186 || lb >= 8186 {
+            ctx.class("id_beyond_2^16_bits");
+        }
         let ke = if i % 16 == 9 {
             ctx.class("ke=H1(id)_doubling_in_Q");
             r9::h1(&idb, r9::HID_EXCH)
